@@ -1385,6 +1385,10 @@ func (ls *LState) Insert(value LValue, index int) {
 	reg := ls.indexToReg(index)
 	top := ls.reg.Top()
 	if reg >= top {
+		if reg > top {
+			// above the top: the skipped positions become nil, as with SetTop
+			ls.reg.SetTop(reg)
+		}
 		ls.reg.Set(reg, value)
 		return
 	}
